@@ -132,19 +132,27 @@ func decode(f netsim.Frame, t0 time.Time) (Seg, bool) {
 // a goroutine that was just started by `go` and has not reached its first blocking point yet is
 // still counted as busy, which the sleeper registry alone cannot see.
 func allIdle() bool {
-	buf := make([]byte, 1<<20)
-	n := runtime.Stack(buf, true)
+	n := 0
+	for {
+		n = runtime.Stack(stackBuf, true)
+		if n < len(stackBuf) {
+			break
+		}
+		stackBuf = make([]byte, 2*len(stackBuf)) // truncated: the newest goroutines come last, they must be seen
+	}
 	first := true
-	for _, line := range strings.Split(string(buf[:n]), "\n") {
-		if !strings.HasPrefix(line, "goroutine ") {
+	for _, g := range strings.Split(string(stackBuf[:n]), "\n\n") {
+		if !strings.HasPrefix(g, "goroutine ") {
 			continue
 		}
 		if first { // the caller itself
 			first = false
 			continue
 		}
+		lines := strings.Split(g, "\n")
 		// only goroutines in a state known to be a wait for an external event count as idle; anything else --
 		// running, runnable, preempted, GC assist wait, waiting on a mutex (its holder is busy) -- is work in progress
+		line := lines[0]
 		i := strings.Index(line, "[")
 		j := strings.LastIndex(line, "]")
 		if i < 0 || j < i {
@@ -154,14 +162,34 @@ func allIdle() bool {
 		if k := strings.Index(st, ","); k >= 0 { // "chan receive, 2 minutes", "select, locked to thread"
 			st = st[:k]
 		}
-		if !idleStates[st] {
-			if os.Getenv("QUIESCE_DEBUG") != "" && st != "running" && st != "runnable" {
-				fmt.Fprintln(os.Stderr, "QUIESCE: busy state:", st)
-			}
-			return false
+		if idleStates[st] {
+			continue
 		}
+		// pkg/sleep parks through a linknamed runtime.gopark with the argument list of an older Go: the wait reason
+		// the runtime records is a byte of a string's address, so the label of a parked sleeper changes from build to
+		// build ("unknown wait reason", "GC assist wait", ...). A goroutine parked by gopark called from
+		// Sleeper.nextWaker is waiting for a waker, whatever the label says.
+		if st != "running" && st != "runnable" && parkedSleeper(lines) {
+			continue
+		}
+		if os.Getenv("QUIESCE_DEBUG") != "" && st != "running" && st != "runnable" {
+			fmt.Fprintln(os.Stderr, "QUIESCE: busy state:", st)
+		}
+		return false
 	}
 	return true
+}
+
+var stackBuf = make([]byte, 1<<20)
+
+// parkedSleeper: the innermost frame (below runtime.gopark, which the dump shows only at the system traceback
+// level) is Sleeper.nextWaker.
+func parkedSleeper(lines []string) bool {
+	const nw = "github.com/brewlin/net-protocol/pkg/sleep.(*Sleeper).nextWaker("
+	if len(lines) >= 2 && strings.HasPrefix(lines[1], nw) {
+		return true
+	}
+	return len(lines) >= 4 && strings.HasPrefix(lines[1], "runtime.gopark(") && strings.HasPrefix(lines[3], nw)
 }
 
 var idleStates = map[string]bool{
@@ -170,7 +198,6 @@ var idleStates = map[string]bool{
 	"sync.Cond.Wait": true, "sync.WaitGroup.Wait": true, "finalizer wait": true,
 	"GC worker (idle)": true, "GC sweep wait": true, "GC scavenge wait": true, "force gc (idle)": true,
 	"cleanup wait": true, "debug call": true, "timer goroutine (idle)": true,
-	"unknown wait reason": true, // pkg/sleep parks with a reason code the runtime has no name for
 }
 
 // Quiesce waits until every sleeper-based goroutine is parked and no goroutine is runnable.
@@ -211,6 +238,18 @@ func Quiesce() {
 
 func (w *World) Collect() []Seg {
 	Quiesce()
+	// whatever made a goroutine invisible to the quiescence test for a moment (seen only on a heavily loaded
+	// machine) must not split one operation's segments over two operations: collect until nothing new shows up
+	for n, k := w.L.Pending(), 0; k < 6; k++ {
+		time.Sleep(60 * time.Microsecond)
+		Quiesce()
+		m := w.L.Pending()
+		if m == n {
+			break
+		}
+		LateFrames++
+		n = m
+	}
 	var out []Seg
 	for _, f := range w.L.Take() {
 		if s, ok := decode(f, w.T0); ok {
@@ -220,6 +259,9 @@ func (w *World) Collect() []Seg {
 	w.Seen = append(w.Seen, out...)
 	return out
 }
+
+// LateFrames counts the times a frame showed up after the quiescence test had passed.
+var LateFrames int
 
 func segs(ss []Seg) string {
 	if len(ss) == 0 {
@@ -444,6 +486,17 @@ func (w *World) Shut() {
 	if w.Lis != nil {
 		w.Lis.Close()
 	}
+	Quiesce()
+	// wind the world's goroutines down: the handshake and reset-after-close timers are stretched under the build
+	// tag, expire them until the handshakes have given up (seven rounds: 1 s doubling past 60 s) and the closed
+	// connections have been reset; then the network endpoint (its echo goroutine)
+	for k := 0; k < 10; k++ {
+		if tcp.VerifFireAdoptedTimers() == 0 {
+			break
+		}
+		Quiesce()
+	}
+	w.S.VerifCloseNetworkEndpoints()
 	Quiesce()
 	w.L.Take()
 }
